@@ -279,7 +279,17 @@ func jsonLeaf(in *Input, ty string) *Input {
 	return in
 }
 
+// NaN leaves (abstract value 8 of a float) are generated only for families whose front end can carry them
+var genNaN bool
+var nanPct = 12
+
 func genLeafFor(r *rand.Rand, ty string) *Input {
+	if genNaN && ty == "float" && r.Intn(100) < nanPct {
+		if r.Intn(2) == 0 {
+			return sval(nanV)
+		}
+		return val(nanV)
+	}
 	maxv := 4
 	if ty == "bool" {
 		maxv = 1
@@ -423,6 +433,9 @@ func genValue(r *rand.Rand, n *Node) *Input {
 		maxv := 4
 		if n.Ty == "bool" {
 			maxv = 1
+		}
+		if genNaN && n.K == "prim" && n.Ty == "float" && r.Intn(100) < nanPct {
+			return val(nanV)
 		}
 		if r.Intn(100) < 25 {
 			return val(0)
